@@ -258,6 +258,9 @@ void PCA(matrix *mx, int scaling, size_t npc, PCAMODEL* model, ssignal *s)
       /* End Step 1 */
 
       while(1){
+        #ifdef LIBSCIENTIFIC_VERIF
+        if(verif_nipals_tick != NULL) verif_nipals_tick(1);
+        #endif
         /* Step 2: projection of t' in E (t'*E) */
         MT_DVectorMatrixDotProduct(E, t, p);
         /* calc the vectors product t'*t = Sum(t[i]^2) */
